@@ -162,7 +162,7 @@ func (e *c14Env) need(kind string, count int) {
 		}
 	case "mc-read", "mc-write":
 		if e.mc == nil {
-			p, err := multicast.NewUDPPeer(ioc, "udp", "127.0.0.1:0")
+			p, err := newOwnPeer(ioc, "127.0.0.1")
 			if err != nil {
 				engine.HarnessError("NewUDPPeer: %v", err)
 			}
